@@ -185,7 +185,11 @@ func (m *Variant) Decode(b []byte) (int, error) {
 		m.arrayDimensions = make([]int32, m.arrayDimensionsLength)
 		for i := 0; i < int(m.arrayDimensionsLength); i++ {
 			m.arrayDimensions[i] = buf.ReadInt32()
-			if m.arrayDimensions[i] < 1 {
+			// the encoder writes a zero length for the innermost dimension
+			// of a value like [][]int32{{}, {}}. All other dimensions have
+			// at least one element.
+			last := i == int(m.arrayDimensionsLength)-1
+			if m.arrayDimensions[i] < 0 || (m.arrayDimensions[i] == 0 && !last) {
 				return buf.Pos(), StatusBadEncodingLimitsExceeded
 			}
 		}
